@@ -211,6 +211,20 @@ fn lex_source_into_tokens(source: &[u8], mut tokens: Tokens) -> Tokens
 	}
 }
 
+/// Literals end at the end of the line: at "\n", at "\r\n" or at the end
+/// of the source.
+#[inline(always)]
+fn is_end_of_line(source: &[u8], i: usize) -> bool
+{
+	match source.get(i)
+	{
+		None => true,
+		Some(b'\n') => true,
+		Some(b'\r') => source.get(i + 1) == Some(&b'\n'),
+		Some(_) => false,
+	}
+}
+
 #[inline(always)]
 fn lex_source_into_buffer<'source: 'tokens, 'tokens: 'buffer, 'buffer>(
 	source: &'source [u8],
@@ -236,10 +250,13 @@ fn lex_source_into_buffer<'source: 'tokens, 'tokens: 'buffer, 'buffer>(
 			{
 				continue;
 			}
-			b'\r' =>
+			b'\r' => match iter.peek()
 			{
-				continue;
-			}
+				// Only "\r\n" is a line terminator; a lone carriage return
+				// is not whitespace.
+				Some((_, b'\n')) => continue,
+				_ => Err(LexingError::UnexpectedCharacter),
+			},
 			b'\n' =>
 			{
 				line_number += 1;
@@ -682,14 +699,17 @@ fn lex_source_into_buffer<'source: 'tokens, 'tokens: 'buffer, 'buffer>(
 				let mut closed = false;
 				let mut first_error = None;
 
-				while let Some((_, x)) = iter.next_if(|&(_, y)| y != b'\n')
+				while let Some((i, x)) =
+					iter.next_if(|&(j, _)| !is_end_of_line(source, j))
 				{
 					location.end += 1;
 					if x == b'\\'
 					{
 						let start_of_escape = location.end - 1;
 						location.end += 1;
-						match iter.next()
+						// A backslash just before the end of the line does
+						// not escape (or consume) the line terminator.
+						match iter.next_if(|_| !is_end_of_line(source, i + 1))
 						{
 							Some((_, b'n')) => push_byte(b'\n'),
 							Some((_, b'r')) => push_byte(b'\r'),
@@ -834,14 +854,17 @@ fn lex_source_into_buffer<'source: 'tokens, 'tokens: 'buffer, 'buffer>(
 				let mut closed = false;
 				let mut first_error = None;
 
-				while let Some((_, x)) = iter.next_if(|&(_, y)| y != b'\n')
+				while let Some((i, x)) =
+					iter.next_if(|&(j, _)| !is_end_of_line(source, j))
 				{
 					location.end += 1;
 					if x == b'\\'
 					{
 						let start_of_escape = location.end - 1;
 						location.end += 1;
-						match iter.next()
+						// A backslash just before the end of the line does
+						// not escape (or consume) the line terminator.
+						match iter.next_if(|_| !is_end_of_line(source, i + 1))
 						{
 							Some((_, b'n')) => push_byte(b'\n'),
 							Some((_, b'r')) => push_byte(b'\r'),
